@@ -102,6 +102,11 @@ pub fn run(cx: &mut Ctx) {
         }
     });
 
+    rules_under_assignments(cx);
+}
+
+/// (also run for C04 / C01: a rule that moves the wrong parity changes the map under some assignment although the parity-blind tensor stays equal)
+pub fn rules_under_assignments(cx: &mut Ctx) {
     // every primitive rule and simplifier on small diagrams whose spiders carry parities of boolean variables: for EVERY assignment, the
     // instantiated diagram (pi added where the parity is odd, scalar factors multiplied in where their condition holds) keeps its exact
     // tensor — relative to the library's tensor evaluator
